@@ -9,4 +9,6 @@ require (
 	pgregory.net/rapid v1.3.0
 )
 
+require github.com/bits-and-blooms/bitset v1.20.0 // indirect
+
 replace github.com/failsafe-go/failsafe-go => /repo
